@@ -6,7 +6,8 @@ import random
 from .. import common, libdiff, translate
 from ..common import coq_string, coq_list
 
-THEOREMS_A = ["c05_overlap_check_panics_iff_shared", "c05_overlap_check_passes_iff_disjoint",
+THEOREMS_A = ["c05_translated_source_panics_iff_shared", "c05_translated_source_passes_iff_disjoint",
+              "c05_overlap_check_panics_iff_shared", "c05_overlap_check_passes_iff_disjoint",
               "c05_overlap_check_total", "c05_published_list_sorted", "c05_published_list_is_wire_names",
               "c05_contract_compiles_iff_no_shared_name"]
 
@@ -68,13 +69,13 @@ def check_overlap(run, rng, thorough, cases=None):
     cases = cases if cases is not None else gen_overlap_cases(rng, thorough)
     obs = libdiff.run([{"op": "intersect", "lists": ls} for ls in cases], tag="c05")
     header = ("From Coq Require Import List.\nFrom Coq Require String.\nImport ListNotations.\nImport String.StringSyntax.\n"
-              "Require Import SV.Model.Intersect.\nLocal Open Scope string_scope.\n")
+              "Require Import SV.Model.Intersect SV.Model.ImpRun.\nLocal Open Scope string_scope.\n")
     model = None
     try:
-        ok, out, _ = common.coq_make(["theories/Model/Intersect.vo"])
+        ok, out, _ = common.coq_make(["theories/Model/Intersect.vo", "theories/Model/ImpRun.vo"])
         if not ok:
             raise common.BuildError("model build failed", out[-2000:])
-        model = common.coq_eval(header, ["run_case %s" % coq_lists(ls) for ls in cases], tag="c05", per_file=4000)
+        model = common.coq_eval(header, ["run_case %s ++ imp_run_case %s" % (coq_lists(ls), coq_lists(ls)) for ls in cases], tag="c05", per_file=1500)
     except common.BuildError as e:
         run.translator_error("model evaluation failed: %s %s" % (e.what, (e.output or "")[-800:]))
     for i, ls in enumerate(cases):
@@ -91,8 +92,11 @@ def check_overlap(run, rng, thorough, cases=None):
         f = oracle_overlap(ls, o)
         if f:
             run.oracle_fail(f, {"kind": "overlap", "lists": ls, "impl": o})
-        if model is not None and model[i] != [o]:
-            run.disagree("assert_no_intersection outcome", {"lists": ls, "sorted": srt}, model[i], o)
+        if model is not None and model[i][:1] != [o]:
+            run.disagree("assert_no_intersection outcome (hand-written model)", {"lists": ls, "sorted": srt}, model[i][:1], o)
+        if model is not None and model[i][1:] != [o]:
+            # the Rust source as translated by the probe / imp_translate.py, run under the semantics of Model/Imp.v
+            run.disagree("assert_no_intersection outcome (translated source under Imp semantics)", {"lists": ls, "sorted": srt}, model[i][1:], o)
     return len(cases)
 
 
@@ -107,6 +111,8 @@ def check(run, replay=None):
         translate.write_gentables(text)
     except translate.TranslateError as e:
         run.translator_error(str(e))
+    from . import libcommon
+    libcommon.regen_imp(run)
     run.hygiene()
     run.prove("Props/C05", THEOREMS_A)
     if replay:
